@@ -135,6 +135,13 @@ func (r *run) appImpl(a *appCap, ctx context.Context, call *server.Call) error {
 	ac.retToken = token + 1000
 	res.SetUint64(0, ac.retToken)
 	put := func(c *capnp.Client, appID int) {
+		if token%5 == 0 {
+			// the same capability twice in one result: two descriptors, two references, which a Finish
+			// with releaseResultCaps gives back together
+			id2 := res.Message().AddCap(c.AddRef())
+			res.SetPtr(1, capnp.NewInterface(res.Segment(), id2).ToPtr())
+			s.Probe("result_names_capability_twice")
+		}
 		id := res.Message().AddCap(c)
 		res.SetPtr(0, capnp.NewInterface(res.Segment(), id).ToPtr())
 		res.SetUint64(8, uint64(appID+1))
